@@ -859,7 +859,15 @@ func C05(run *hx.Run) {
 				return
 			}
 			for pd := range cases {
-				rep, st := w.send(pd.c, 120*time.Second)
+				smu.Lock()
+				tooMany := len(suspects) >= 6
+				smu.Unlock()
+				if tooMany {
+					// enough suspected hangs to confirm; do not burn the remaining budget on watchdog timeouts
+					run.Count("cases_skipped_after_repeated_timeouts", 1)
+					continue
+				}
+				rep, st := w.send(pd.c, 60*time.Second)
 				switch st {
 				case "ok":
 					handleReply(pd, rep)
@@ -899,7 +907,11 @@ func C05(run *hx.Run) {
 	}
 	wg.Wait()
 	// suspected hangs: re-run each alone
-	for _, pd := range suspects {
+	for si, pd := range suspects {
+		if si >= 3 {
+			run.Count("suspected_hangs_not_reconfirmed", 1)
+			continue
+		}
 		w, err := startC05Worker(dir, 99)
 		if err != nil {
 			run.Inconclusive("cannot start worker for hang confirmation")
